@@ -19,6 +19,9 @@ import (
 
 func init() { register("C11", c11) }
 
+// c11FirstLateRule: index of the first inequality rule in c11Rules (4 inequality rules, then list constructors and reducers).
+const c11FirstLateRule = 29
+
 var c11Types = []string{"/any", "/number", "/string", "/name", "/a", "/a/b", "fn:Singleton(/a/x)", "fn:Union(/number, /string)", "fn:Union(/a, /b)", "/b", "fn:List(/number)",
 	"fn:Pair(/number, /name)", "fn:Map(/name, /number)", "fn:Struct(/f, /number)", "fn:Struct(/f, /number, fn:opt(/g, /string))", "/float64", "/bytes", "fn:List(/a)", "fn:Map(/any, /any)"}
 
@@ -52,6 +55,24 @@ var c11Rules = []string{
 	"p(X,Y) :- e(X,Y), !:match_prefix(X, /a).",
 	"p(X,Y) :- e(X,Y), !:match_prefix(X, /a/b).",
 	"p(X,Y) :- e(X,Y), !:match_prefix(X, /b), !:match_prefix(Y, /a/b).",
+	// inequalities say nothing about the type of the variable
+	"p(X,Y) :- e(X,Y), X != 1.",
+	"p(X,Y) :- e(X,Y), X != \"s\".",
+	"p(X,Y) :- e(X,Y), Y != /a/x.",
+	"p(X,Y) :- e(X,Y), X != Y.",
+	// list constructors whose element and list arguments have different types
+	"p(X,Z) :- e(X,Y), Z = fn:list:cons(X, [1]).",
+	"p(X,Z) :- e(X,Y), Z = fn:list:cons(1, [Y]).",
+	"p(X,Z) :- e(X,Y), Z = fn:list:cons(X, Y).",
+	"p(X,Z) :- e(X,Y), Z = fn:list:append(Y, X).",
+	"p(X,Z) :- e(X,Y), Z = fn:list:append([1], X).",
+	// reducers, also with more than one argument
+	"p(X,Z) :- e(X,Y) |> do fn:group_by(X), let Z = fn:collect(Y).",
+	"p(X,Z) :- e(X,Y) |> do fn:group_by(X), let Z = fn:collect(X, Y).",
+	"p(X,Z) :- e(X,Y) |> do fn:group_by(X), let Z = fn:collect_distinct(Y, X).",
+	"p(X,Z) :- e(X,Y) |> do fn:group_by(X), let Z = fn:max(Y).",
+	"p(X,Z) :- e(X,Y) |> do fn:group_by(X), let Z = fn:collect_to_map(X, Y).",
+	"p(X,Z) :- e(X,Y) |> do fn:group_by(X), let Z = fn:count().",
 }
 
 func c11Values() []ast.Constant {
@@ -78,7 +99,7 @@ func c11(r *rt.Run) {
 		r.Finish("replay")
 	}
 	r.SetBudget(240*time.Second, 3000*time.Second)
-	types := c11Types[:13]
+	types := append(append([]string{}, c11Types[:13]...), c11Types[14]) // quick: without the plain struct type (the one with an optional field stays)
 	if r.Thorough() {
 		types = c11Types
 	}
@@ -115,7 +136,9 @@ func c11(r *rt.Run) {
 		if len(m1) > 3 {
 			m1 = m1[:3]
 		}
-		if len(m2) > 4 {
+		if len(m2) > 3 && !r.Thorough() {
+			m2 = m2[:3]
+		} else if len(m2) > 4 {
 			m2 = m2[:4]
 		}
 		// fact sets: every single admitted fact, and the first two pairs
@@ -137,12 +160,23 @@ func c11(r *rt.Run) {
 		if len(factSets) == 0 {
 			factSets = [][]string{nil}
 		}
+		// facts in the program text whose admission is the decision of analysis alone: every value of the universe in
+		// the first column (the second column holds a member), copied by the first rule into a predicate declared alike
+		if len(m2) > 0 {
+			for _, v := range V {
+				src := fmt.Sprintf("Decl e(A, B) bound [%s, %s].\nDecl p(A, B) bound [%s, %s].\ne(%s, %s).\n%s\n", t1, t2, t1, t2, v.String(), m2[0].String(), c11Rules[0])
+				c11Program(r, src, nil)
+			}
+		}
 		for _, s1 := range types {
 			for _, s2 := range types {
 				if r.Expired("C11 enumeration") {
 					return
 				}
 				for ri, rule := range c11Rules {
+					if !r.Thorough() && ri >= c11FirstLateRule+4 && s1 != t1 && s1 != "/any" {
+						continue // these rules copy X into the first column; quick varies only the declared type of the second
+					}
 					decl := fmt.Sprintf("Decl e(A, B) bound [%s, %s].\nDecl p(A, B) bound [%s, %s].\n", t1, t2, s1, s2)
 					// cheap pre-filter: analyse once without facts; if rejected there is nothing to evaluate
 					if !c11Accepts(decl + rule + "\n") {
@@ -168,7 +202,7 @@ func c11(r *rt.Run) {
 	})
 	c11MultiRow(r)
 	c11Helper(r)
-	r.Finish("programs Decl e(A,B) bound[t1,t2]. Decl p(A,B) bound[s1,s2]. <facts of e> <rule> over a type alphabet (11 quick / 17 thorough), 29 rules (copy, swap, positive and negated :match_prefix on a union of name-prefix types, constants, constructors, match predicates, accessors, arithmetic, recursion, let-transform) and fact sets drawn from the constants the declaration of e admits; " +
+	r.Finish("programs Decl e(A,B) bound[t1,t2]. Decl p(A,B) bound[s1,s2]. <facts of e> <rule> over a type alphabet (15 quick / 19 thorough), 44 rules (inequalities, list constructors over different element types, reducers with one and two arguments, copy, swap, positive and negated :match_prefix on a union of name-prefix types, constants, constructors, match predicates, accessors, arithmetic, recursion, let-transform) and fact sets drawn from the constants the declaration of e admits, plus every constant of the universe written as a fact in the program text (admission is then decided by the analysis alone); " +
 		"an undeclared recursive helper whose column type shifts per round through a multi-row conversion relation, feeding a declared predicate (3 conversions x 6 helper shapes x 7 declared bounds x 3 uses); a multi-row family (e declared with two bound rows, u/1 with a wide bound, 9 rule shapes incl. a variable bound earlier with a wider type and the 4th/5th distinct variable of a clause, every head row over 6 types and two-row heads); accepted-and-evaluated programs: every stored fact of e and p passes CheckTypeBounds; non-trivial = accepted programs that derive at least one p fact")
 }
 
